@@ -752,7 +752,12 @@ pub fn make_broken(rng: &mut Rng, base: &Decl, class: &str) -> Option<String> {
                         format!("{}#[data_type(TagDataType::Date)] {}", &src[..tpos], &src[tpos + needle_ty.len()..])
                     }
                 }
-                _ => format!("{}#[frobnicate(3)] {}", &src[..pos], &src[pos..]),
+                _ => {
+                    // an attribute the macro does not know: a foreign name, a misspelt own name, or one of its own names
+                    // behind a path prefix (`legacy::id`), next to the genuine attributes or (doc_path) instead of one
+                    let extra = *rng.pick(&["#[frobnicate(3)] ", "#[idd(0x11)] ", "#[legacy::id(0x7F)] ", "#[v1::data_type(TagDataType::Binary)] ", "#[old::doc_path(Root)] ", "#[zzq::id(0x11)] "]);
+                    format!("{}{}{}", &src[..pos], extra, &src[pos..])
+                }
             });
         }
         _ => return None,
@@ -1040,12 +1045,24 @@ fn run(c: &mut Case) {
     if let Some(src) = make_broken(&mut c.rng, &base, class) {
         c.count("broken_declarations");
         c.count(&format!("broken_{}", class));
-        let r = guard(1 << 30, || derive_lib::expand_attribute_form(&src).map(|_| ()));
+        let r = guard(1 << 30, || derive_lib::expand_attribute_form(&src).map(|t| t.to_string()));
         c.eval();
         match r {
             Err(cg) => c.violation(format!("C18/macro-{}/broken-{}", cg.sig(), class), format!("macro {} on a broken declaration", cg.text()), J::obj().set("declaration", J::s(src.clone()))),
             Ok(Err(_)) => c.count("broken_rejected_by_macro"),
-            Ok(Ok(())) => needs_rustc.push((class.to_string(), src.clone())),
+            Ok(Ok(expanded)) => {
+                // an attribute the macro does not know has to be rejected by the macro or handed on to rustc (which rejects
+                // it); if it is neither rejected nor present in the expansion it was swallowed and nothing can reject it
+                let marker = ["frobnicate", "idd", "legacy", "v1", "old", "zzq"].iter().find(|m| src.contains(&format!("#[{}", m))).copied();
+                match (class, marker) {
+                    ("unknown-attribute", Some(m)) if !expanded.contains(m) => c.violation(
+                        format!("C18/broken-accepted/unknown-attribute-swallowed"),
+                        format!("the unknown attribute `{}…` is neither rejected by the macro nor present in its output: the declaration is accepted", m),
+                        J::obj().set("broken_class", J::s(class)).set("declaration", J::s(src.clone())),
+                    ),
+                    _ => needs_rustc.push((class.to_string(), src.clone())),
+                }
+            }
         }
         c.nontrivial(mix(hash_str(class), embedded as u64));
     }
